@@ -18,8 +18,17 @@ def hx(xs):
 def gen_case(rng):
     c = Q.gen_c(rng)
     convex = rng.random() < 0.5
-    if rng.random() < 0.08:
+    r = rng.random()
+    if r < 0.08:
         a = b = Q.gen_point(rng)
+    elif r < 0.20:
+        # "for all finite a <= b": supports far narrower / wider than anything an absolute tolerance is tuned for
+        w = 10.0 ** (rng.uniform(-150, -6) if rng.random() < 0.7 else rng.uniform(6, 150))
+        t = rng.choice([0.0, -1.0, -0.5, rng.uniform(-2, 2), rng.choice([-1, 1]) * 10.0 ** rng.uniform(0, 2.5)])
+        a = w * t
+        b = a + w
+        if not (a < b and np.isfinite(a) and np.isfinite(b) and abs(a) + abs(b) <= 1e3 * (b - a)):
+            a, b = 0.0, w
     else:
         a, b = Q.gen_ab(rng)
     return dict(a=a, b=b, c=c, convex=convex, ys=Q.gen_ys(rng, a, b), qs=Q.gen_qs(rng))
@@ -64,7 +73,7 @@ def run(seed, tier, replay=None):
         w = b - a
         rep.count(f"c={c}")
         rep.count("convex" if convex else "concave")
-        rep.count("point_mass" if a == b else "width=1e%+d" % int(np.floor(np.log10(w))))
+        rep.count("point_mass" if a == b else "width<1e-6(down to 1e-150)" if w < 1e-6 else "width>1e6(up to 1e150)" if w > 1e6 else "width=1e%+d" % int(np.floor(np.log10(w))))
         if a != b:
             rep.count("location/width=%s" % ("0" if a == 0 else "<=2" if abs(a) <= 2 * w else "<=100" if abs(a) <= 100 * w else "<=500"))
         with warnings.catch_warnings():
@@ -158,7 +167,7 @@ def run(seed, tier, replay=None):
     return rep.result(
         rule="distributions: b-a log-uniform in [1e-6,1e6] (ends and 1 over-represented) x location a/(b-a) in "
              "{0,-1,-1/2, U[-2,2], ±log-uniform up to 499, the ±499 edge} subject to |a|+|b|<=1e3(b-a), c in 1..10, both "
-             "shapes, 8% point masses; queries y: ±inf, a, b, their float neighbours, ±1e300, outside, interior uniform and "
+             "shapes, 8% point masses, 12% extreme widths 1e-150..1e-6 / 1e6..1e150; queries y: ±inf, a, b, their float neighbours, ±1e300, outside, interior uniform and "
              "log-close to either end; q: 0, 1, 5e-324, 1e-300, 1e-17, 1-2^-53, uniform, log-close to 0 and 1. A case is "
              "(function, distribution, query); trivial = outside the support / point mass; distinct by hash of the triple.",
         extra=dict(driver_lines=drv.lines, extra=dict(calibration=calib),
